@@ -33,7 +33,7 @@ type fmtMemoEntry struct {
 func isModulePath(p string) bool { return strings.HasPrefix(p, "github.com/b2broker/simplefix-go") }
 
 // packages whose init functions are executed for real
-var initReal = map[string]bool{"io": true, "bufio": true, "errors": true}
+var initReal = map[string]bool{"io": true, "bufio": true}
 
 func (in *Interp) newErr(text string) Value {
 	in.errCount++
